@@ -84,3 +84,12 @@ Example C13_example :
   /\ raw_suffix u = [46; 103; 122] /\ raw_suffixes u = [[46; 116; 97; 114]; [46; 103; 122]].
 Proof. repeat split; vm_compute; reflexivity. Qed.
 Print Assumptions C13_example.
+
+(** with_name(n) has name n (and raw name the quoted n), for every URL whose path is empty or
+    rooted under an authority, every slash-free surrogate-free n and either backend *)
+From Yarl Require Import Proofs.ReadbackProofs.
+Theorem C13_with_name_has_name : forall (B : backend) (u : url) (nm : str) (kq kf : bool) (u' : url),
+  path_ok u -> valid_str nm -> no_sur nm -> with_name B u nm kq kf = Ok u' ->
+  raw_name u' = Q B PATH_QUOTER nm /\ name B u' = nm.
+Proof. exact with_name_readback. Qed.
+Print Assumptions C13_with_name_has_name.
